@@ -60,6 +60,11 @@ def gen_sim(r, big):
                 ts = now + r.choice([1, dl, 10 * MS, NS])  # future source timestamp
             elif q < 0.30:
                 ts = max(0, now - r.choice([1, dl // 2, dl - 1, dl]))  # a bit old, at most one period
+            elif q < 0.40 and ws[w][1] is not None:
+                # out-of-order expiry: older than the previous samples but not yet expired, so the
+                # change that expires first is NOT the first of the history
+                ls = ws[w][1]
+                ts = max(0, now - r.choice([ls // 2, 3 * ls // 4, ls - 1, ls // 3 + 7]))
             elif q < 0.45 and oldok:
                 ts = max(0, now - r.choice([dl + 1, 2 * dl, 2 * dl + 1, 3 * dl, NS, 5 * dl + 7]))
             ops.append(("w", w, key, ts))
@@ -130,6 +135,11 @@ def corpus():
         # exactly due values (delay 0) and the one-period-old timestamp are fine
         ("sim", 200, 1, (("W", 100 * MS, None), ("w", 0, 1, None), ("adv", 100 * MS), ("adv", 250 * MS), ("odm", 0))),
         ("sim", 5000, 1, (("W", 100 * MS, 120 * MS), ("adv", 300 * MS), ("w", 0, 1, T0 + 200 * MS), ("adv", 300 * MS))),
+        # out-of-order expiry: sample 2 is written after sample 1 with an older timestamp and expires
+        # first (at 1.03 s, then sample 3 at 1.07 s, sample 1 at 1.2 s): the sleep is the minimum over
+        # ALL changes of the history, and each is removed at its own expiry
+        ("sim", 5000, 1, (("W", None, 200 * MS), ("w", 0, 1, None), ("w", 0, 2, T0 - 170 * MS), ("w", 0, 3, T0 - 130 * MS),
+                          ("adv", 40 * MS), ("adv", 300 * MS))),
         ("block", 120 * MS, False, 0),
         ("block", 120 * MS, True, 0),
         ("block", 0, True, 30 * MS),
